@@ -14,6 +14,8 @@ import (
 	"golang.org/x/tools/go/ssa"
 )
 
+var traceSched bool
+
 type gstate int
 
 const (
@@ -244,7 +246,32 @@ func (m *machine) rrOrder(gs []*gor, cur *gor) []*gor {
 	return append(after, before...)
 }
 
+func (m *machine) where(g *gor) string {
+	if g == nil || g.top == nil {
+		return "?"
+	}
+	fr := g.top
+	pos := ""
+	if g.cur != nil {
+		pos = m.posOf(fr, g.cur.Pos())
+	}
+	// innermost /repo frame
+	for f := fr; f != nil; f = f.caller {
+		if f.fn.Pkg != nil && strings.HasPrefix(f.fn.Pkg.Pkg.Path(), "github.com/redis/rueidis") {
+			return f.fn.Name() + "@" + pos
+		}
+	}
+	return fr.fn.Name() + "@" + pos
+}
+
 func (m *machine) schedLog(g *gor) {
+	if traceSched {
+		from := "-"
+		if m.cur != nil {
+			from = fmt.Sprintf("%s(%s, %s)", m.cur.name, m.where(m.cur), m.cur.waitReason)
+		}
+		fmt.Fprintf(os.Stderr, "  sched: %s  ->  %s(%s)\n", from, g.name, m.where(g))
+	}
 	m.schedule = append(m.schedule, g.id)
 }
 
@@ -308,7 +335,7 @@ func (m *machine) yieldPoint(fr *frame, kind string) {
 
 // gosched: voluntary yield (runtime.Gosched, verifYield): no pre-emption budget needed.
 func (m *machine) gosched(fr *frame) {
-	others := m.runnable()
+	others := m.rrOrder(m.runnable(), m.cur)
 	if len(others) == 0 {
 		// let idle timers fire so that busy-wait loops on time make progress
 		return
@@ -316,8 +343,9 @@ func (m *machine) gosched(fr *frame) {
 	cur := m.cur
 	cur.state = gRunnable
 	i := 0
-	if len(others) > 1 {
-		i = m.choose(len(others), "gosched")
+	if n := min(len(others), m.preemptLeft+1); n > 1 {
+		i = m.choose(n, "gosched")
+		m.preemptLeft -= i
 	}
 	m.schedLog(others[i])
 	m.switchTo(cur, others[i])
